@@ -1052,14 +1052,23 @@ def check_having(v, tier, d):
     # pass 1: base queries (without HAVING) to learn the kinds of their columns
     b1 = Batch()
     bases = []
-    for _ in range(n):
+    nbig = 5 if tier == "quick" else 30
+    for _i in range(n):
         base = clean_base(g, max_clauses=2, p_alias=0.3)
         x = g.rng.random()
+        if _i < nbig:
+            # a LARGE table reaches HAVING (two unrelated clauses over the whole universe: more than a thousand rows):
+            # whatever is done block-wise, in parallel or from a size on shows only there
+            content = sorted(g.rng.sample(range(1, len(bqlu.TRIPLES) + 1), g.rng.randint(36, len(bqlu.TRIPLES))))
+            cls = [bqlgen.clause(bqlgen.S(b="?a", id="?aid"), bqlgen.P(b="?b"), bqlgen.O(b="?c")),
+                   bqlgen.clause(bqlgen.S(b="?d", id="?did"), bqlgen.P(b="?e", id="?eid"), bqlgen.O(b="?f"))]
+            base = {"clauses": cls, "names": bqlgen.pattern_names(cls), "graphs": [content], "glo": 0, "ghi": 0, "alt": False, "content": content}
+            x = 1.0
         if x < 0.2:
             base = broad_base(g)
         elif x < 0.4:
             base = kind_base(g)
-        elif g.rng.random() < 0.5:
+        elif _i >= nbig and g.rng.random() < 0.5:
             # broad one-clause patterns over a large content: many rows of several kinds to filter
             content = g.content(12, 22)
             o = bqlgen.O(b="?o")
@@ -1075,12 +1084,12 @@ def check_having(v, tier, d):
                     "glo": 0, "ghi": 0, "alt": False, "content": content}
         names = base["names"]
         sel, outnames, group = list(names), list(names), None
-        if len(names) >= 2 and g.rng.random() < 0.25:  # HAVING over aggregate outputs
+        if _i >= nbig and len(names) >= 2 and g.rng.random() < 0.25:  # HAVING over aggregate outputs
             k = g.rng.choice(names)
             x = g.rng.choice([y for y in names if y != k])
             an = x if g.rng.random() < 0.35 else "?n"   # the aggregate may be named like the binding it aggregates
             sel, outnames, group = [k, "COUNT(%s) AS %s" % (x, an)], [k, an], [k]
-        elif len(names) >= 2 and g.rng.random() < 0.2:
+        elif _i >= nbig and len(names) >= 2 and g.rng.random() < 0.2:
             sel, outnames = shadow_select(g, names)
         sel, outnames, group = alias_some(g, sel, outnames, group)
         kw = {"group": group} if group else {}
